@@ -670,6 +670,7 @@ def check(ctx):
     _membership(ctx, rep, model)
     _derived_pspace(rep, model)
     _derived_tensor(rep, model)
+    _getitem_weights(rep, model)
     # ---- R7 derived spaces ----------------------------------------------------
     _derived(ctx, rep, model, eqs)
     return rep
@@ -1155,6 +1156,132 @@ def _derived_tensor(rep, model):
                         '' if target in ('int64', 'bool')
                         else ', weighting object'))
     rep.floor('R7d', 'derived tensor spaces', n, 50)
+
+
+# R7e: NumpyTensor.__getitem__ evaluated on an element of an array-weighted
+# space: the space of the selection carries the weights of exactly the
+# selected entries (shape-preserving permutations included), the exponent,
+# and the selected data.
+def _getitem_weights(rep, model):
+    import numpy as _np
+    from ..symex import (Inst, ClassV, TypeV, Rec, Builtin, PyRaise, Func,
+                         is_scalar, to_rat)
+    from ..namodel import NA, NAHooks, NAInterp, DT, objarr
+    from ..ratfun import Rat
+    NPYT = 'odl/space/npy_tensors.py'
+    ci = model.get('NumpyTensor')
+    csp = model.get('NumpyTensorSpace')
+    warr = model.get('NumpyTensorSpaceArrayWeighting')
+    if ci is None or '__getitem__' not in ci.methods or csp is None or \
+            warr is None:
+        raise AnalysisError('anchor vanished: NumpyTensor.__getitem__')
+    fn = ci.methods['__getitem__']
+
+    class H(NAHooks):
+        def on_call(self, interp, f, args, kwargs, node):
+            nm = getattr(getattr(f, 'ci', None), 'name', None)
+            if isinstance(f, (ClassV, TypeV)) and nm == 'NumpyTensorSpace':
+                sp = Rec('made-space', args=list(args), kwargs=dict(kwargs))
+                sp.attrs['element'] = Builtin(
+                    'element', lambda arr=None, **k: Rec(
+                        'made-element', space=sp, data=arr))
+                return sp
+            if isinstance(f, (ClassV, TypeV)) and nm == \
+                    'NumpyTensorSpaceArrayWeighting':
+                return Rec('made-weighting', array=args[0],
+                           exponent=kwargs.get('exponent', args[1] if len(
+                               args) > 1 else Rat.const(2)))
+            return NotImplemented
+
+        def on_getattr(self, interp, obj, name):
+            if isinstance(obj, Rec) and name in obj.attrs:
+                return obj.attrs[name]
+            return NAHooks.on_getattr(self, interp, obj, name)
+
+    def sym(tag, shape):
+        a = _np.empty(shape, dtype=object)
+        for idx in _np.ndindex(*shape):
+            a[idx] = Rat.var(tag + ''.join(map(str, idx)))
+        return a
+    SH = (3, 2)
+    INDICES = [
+        ('x[::-1]', slice(None, None, -1)),
+        ('x[:, ::-1]', (slice(None), slice(None, None, -1))),
+        ('x[[2, 0, 1]]', [2, 0, 1]),
+        ('x[:]', slice(None)),
+        ('x[1:]', slice(1, None)),
+        ('x[0]', 0),
+        ('x[:, 1]', (slice(None), 1)),
+        ('x[::2]', slice(None, None, 2)),
+        ('x[[0, 2], [1, 0]]', ([0, 2], [1, 0])),
+    ]
+    n = 0
+    for tag, idx in INDICES:
+        n += 1
+        cons = 'NumpyTensor.__getitem__[%s, array weighting]' % tag
+        try:
+            W = sym('w', SH)
+            D = sym('x', SH)
+            sp = Inst(csp)
+            sp.attrs['_TensorSpace__shape'] = SH
+            sp.attrs['_TensorSpace__dtype'] = DT('float64')
+            w = Inst(warr)
+            w.attrs['_ArrayWeighting__array'] = NA(W, 'float64')
+            w.attrs['_Weighting__exponent'] = Rat.var('p')
+            w.attrs['_Weighting__impl'] = 'numpy'
+            sp.attrs['_NumpyTensorSpace__weighting'] = w
+            x = Inst(ci)
+            x.attrs['_LinearSpaceElement__space'] = sp
+            x.attrs['_NumpyTensor__data'] = NA(D, 'float64')
+            I = NAInterp(model, {}, H())
+            r = I.call_func(Func(fn, I.env_of(NPYT), ci), [x, idx], {})
+            if not (isinstance(r, Rec) and r.kind == 'made-element'):
+                raise Undecided('result %r' % (r,))
+            want_d = D[idx]
+            want_w = W[idx]
+            probs = []
+            got_d = r.attrs['data']
+            if not isinstance(got_d, NA) or got_d.a.shape != want_d.shape \
+                    or any(not (to_rat(a) - to_rat(b)).is_zero()
+                           for a, b in zip(got_d.a.ravel(),
+                                           want_d.ravel())):
+                probs.append('data %r' % (got_d,))
+            kw = r.attrs['space'].attrs['kwargs']
+            args = r.attrs['space'].attrs['args']
+            shape = args[0] if args else kw.get('shape')
+            if tuple(shape) != want_d.shape:
+                probs.append('space shape %r for a selection of shape %r'
+                             % (shape, want_d.shape))
+            gw = kw.get('weighting')
+            ga = gw.attrs.get('array') if isinstance(gw, Rec) else (
+                gw.attrs.get('_ArrayWeighting__array') if isinstance(
+                    gw, Inst) else None)
+            if not isinstance(ga, NA) or ga.a.shape != want_w.shape or any(
+                    not (to_rat(a) - to_rat(b)).is_zero()
+                    for a, b in zip(ga.a.ravel(), want_w.ravel())):
+                probs.append('the selection %s has weights %s, the weights '
+                             'of the selected entries are %s' % (
+                                 tag, None if not isinstance(ga, NA)
+                                 else ga.a.tolist(), want_w.tolist()))
+            ex = kw.get('exponent')
+            gex = gw.attrs.get('exponent') if isinstance(gw, Rec) else (
+                gw.attrs.get('_Weighting__exponent') if isinstance(
+                    gw, Inst) else None)
+            for e in (ex, gex):
+                if e is not None and not (is_scalar(e) and (
+                        to_rat(e) - Rat.var('p')).is_zero()):
+                    probs.append('exponent %r' % (e,))
+            if probs:
+                rep.violation('R7e', cons, '; '.join(probs), NPYT, fn.lineno)
+            else:
+                rep.holds('R7e', cons, 'data, weights of the selected '
+                          'entries, exponent')
+        except (Undecided, Fork) as e:
+            rep.undecided('R7e', cons, str(e), NPYT, fn.lineno)
+        except PyRaise as e:
+            rep.violation('R7e', cons, 'raises %s' % e.name, NPYT,
+                          fn.lineno)
+    rep.floor('R7e', 'element selections', n, 9)
 
 
 def _derived_pspace(rep, model):
